@@ -212,6 +212,7 @@ func checkC12(c CaseC12, info *Info) *Failure {
 	applyUnrelatedOptions(c.Unrelated)
 	if c.FieldSep != "" {
 		mxj.SetFieldSeparator(c.FieldSep)
+		bystanders()
 		info.Class("non-default sub-key field separator in force")
 	}
 	info.ClassIf(c.Unrelated != 0, "unrelated options switched on")
